@@ -214,6 +214,60 @@ def runLimits (j : Json) : P Json := do
   let (outs, amb) := go (AzState.init blocksI azI) callsI [] false
   pure (Json.mkObj ([("calls", Json.arr outs.toArray)] ++ (if amb then [("amb", Json.bool true)] else [])))
 
+/-- every (key, message, signature) an honest token carries -/
+def tokenTriples (root : PubKey) (c : Container) : List (String × PubKey × Bytes × Bytes) :=
+  let auth := match authorityPayload c.authority with
+    | some p => [("authority signature", root, p, c.authority.sig)]
+    | none => []
+  let rec go (i : Nat) (pk : PubKey) (prevSig : Bytes) : List SBlock → List (String × PubKey × Bytes × Bytes)
+    | [] => []
+    | b :: rest =>
+      (match blockPayload b prevSig with
+        | some p => [(s!"block {i} signature", pk, p, b.sig)]
+        | none => []) ++
+      (match b.ext with
+        | some e => [(s!"block {i} external signature", e.key, externalPayload b prevSig, e.sig)]
+        | none => []) ++ go (i + 1) b.nextKey b.sig rest
+  let blocks := go 1 c.authority.nextKey c.authority.sig c.blocks
+  let sealT := match c.proof with
+    | .sealed s => [("seal", c.lastBlock.nextKey, sealPayload c.lastBlock, s)]
+    | .secret _ => []
+  auth ++ blocks ++ sealT
+
+def runChain (j : Json) : P Json := do
+  let root ← parsePubKey (← field j "root")
+  let honest ← (← getArr (← field j "honest")).mapM fun h => do
+    match ← parseContainer (← field h "token") with
+    | some c => pure (← parsePubKey (← field h "root"), c)
+    | none => throw "honest token without proof"
+  let secrets ← (← getArr (← field j "secrets")).mapM fun s => do
+    pure ((← getNat (← field s "alg")), (← hexField s "sk"), ← parsePubKey (← field s "pk"))
+  let subject ← parseContainer (← field j "subject")
+  let mutation ← (← field j "mutation").getStr?
+  let triples := honest.flatMap fun rc => (tokenTriples rc.1 rc.2).map fun t => (t.2.1, t.2.2.1, t.2.2.2)
+  -- the ideal scheme: valid signatures are exactly those honest parties produced
+  let S : Scheme := {
+    pub := fun alg sk => (secrets.find? fun s => s.1 == alg && s.2.1 == sk).map (·.2.2)
+    sign := fun _ _ _ => []
+    verify := fun pk m s => triples.contains (pk, m, s) }
+  match subject with
+  | none => pure (Json.mkObj [("accept", Json.bool false)])
+  | some c =>
+    let acc := verifyToken S root c
+    let base : List (String × Json) := [("accept", Json.bool acc)]
+    let more : List (String × Json) := if acc then
+        [("ids", Json.arr (c.revocationIds.map (fun b => Json.str (hex b))).toArray),
+         ("ext_keys", Json.arr (c.externalKeys.map (fun k => match k with | some k => pubKeyOut k | none => Json.null)).toArray),
+         ("block_count", (c.blocks.length + 1 : Nat)),
+         ("root_key_id", match c.rootKeyId with | some k => (k : Json) | none => Json.null),
+         ("wire_bytes", Json.str (hex (Wire.encContainer c)))]
+      else []
+    let pay : List (String × Json) := if mutation == "none" then
+        [("payloads", Json.arr ((tokenTriples root c).map fun t =>
+          Json.mkObj [("what", t.1), ("key", pubKeyOut t.2.1), ("msg", hex t.2.2.1), ("sig", hex t.2.2.2)]).toArray)]
+      else []
+    pure (Json.mkObj (base ++ more ++ pay))
+
 def handle (line : String) : String :=
   match Json.parse line with
   | .error e => (Json.mkObj [("driver_error", s!"parse: {e}")]).compress
@@ -227,6 +281,7 @@ def handle (line : String) : String :=
       | "atten" => runAtten j
       | "determ" => runAuthz j
       | "limits" => runLimits j
+      | "chain" => runChain j
       | _ => throw s!"unknown op {op}"
     match r with
     | .ok o => o.compress
